@@ -62,7 +62,9 @@ def budget(draw, min_sources=1, max_sources=4, allow_broken=True, rules_kinds=('
     b = {'sources': sources, 'supplemental': supp, 'rules_kind': kind,
          'rule_mode': draw(st.sampled_from(['first_match', 'first_match', 'most_specific', None, 'bogus'])),
          'views': draw(st.one_of(st.none(), V.views_file(), st.just('corrupt'))), 'currency': draw(st.sampled_from(CURRENCIES)),
-         'supp_position': draw(st.sampled_from(['first', 'last']))}
+         'supp_position': draw(st.sampled_from(['first', 'last'])),
+         # the supplemental files have their own delimiter / decimal-separator settings too
+         'supp_style': draw(st.sampled_from([{'delim': ',', 'dec': '.'}, {'delim': ',', 'dec': '.'}, {'delim': ';', 'dec': ','}, {'delim': 'tab', 'dec': '.'}, {'delim': ';', 'dec': '.'}]))}
     words = sorted({w for s_ in sources for r in s_['rows'] for w in r['desc'].upper().split() if w.isalnum() and len(w) > 2}) or ['NETFLIX']
     if kind == 'rules':
         rf = draw(R.rule_file(max_rules=5, depth=1))
@@ -82,6 +84,12 @@ def budget(draw, min_sources=1, max_sources=4, allow_broken=True, rules_kinds=('
                 continue
             extra.insert(0, {'name': f'Row fact {len(extra)}', 'match': m, 'category': draw(st.sampled_from(R.CATEGORIES)), 'subcategory': draw(st.sampled_from(R.SUBCATS)),
                              'merchant': None, 'priority': None, 'tags': draw(st.lists(st.sampled_from(['recurring', 'income', 'transfer']), max_size=1)), 'lets': [], 'fields': []})
+        # a rule that is true exactly when a supplemental file is read with its own settings (an amount of its first row is found)
+        for nm, rows_ in sorted((supp or {}).items()):
+            good = [r for r in rows_ if any(str(v).strip() for v in r.values())]
+            if good and draw(st.booleans()):
+                extra.append({'name': f'Supp {nm}', 'match': ['anygen', ['cmp', ['attr', 'r', 'amount'], [['==', ['num', good[0]['amount']]]]], 'r', ['name', nm], None],
+                              'category': '', 'subcategory': '', 'merchant': None, 'priority': None, 'tags': [f'has-{nm}'], 'lets': [], 'fields': []})
         pos = draw(st.integers(0, len(rf['rules'])))
         b['rf'] = dict(rf, rules=rf['rules'][:pos] + extra + rf['rules'][pos:])
     elif kind == 'csv':
@@ -115,14 +123,20 @@ def materialise(b, bd, drop_source=None, mutate_source=None):
     supp_entries = []
     if b['supplemental']:
         for name, rows in b['supplemental'].items():
+            style = b.get('supp_style') or {'delim': ',', 'dec': '.'}
             buf = io.StringIO()
-            w = csv.writer(buf, lineterminator='\n')
+            w = csv.writer(buf, lineterminator='\n', delimiter={'tab': '\t'}.get(style['delim'], style['delim']))
             w.writerow(['Date', 'Item', 'Amount', 'Qty'])
             for r in rows:
-                w.writerow([r['date'], r['item'], repr(r['amount']), r['qty']])
+                w.writerow([r['date'], r['item'], repr(r['amount']).replace('.', style['dec']), r['qty']])
             bd.write(f'data/{name}.csv', buf.getvalue())
-            supp_entries.append({'name': name.capitalize() if name == 'orders' else name, 'file': f'data/{name}.csv', 'format': '{date:%Y-%m-%d},{item},{amount},{qty}',
-                                 'columns': {'description': '{item}'}, 'supplemental': True})
+            entry = {'name': name.capitalize() if name == 'orders' else name, 'file': f'data/{name}.csv', 'format': '{date:%Y-%m-%d},{item},{amount},{qty}',
+                     'columns': {'description': '{item}'}, 'supplemental': True}
+            if style['delim'] != ',':
+                entry['delimiter'] = style['delim']
+            if style['dec'] != '.':
+                entry['decimal_separator'] = style['dec']
+            supp_entries.append(entry)
     for i, s in enumerate(b['sources']):
         case = {'layout': s['layout'], 'rows': s['rows']}
         if mutate_source == i:
